@@ -50,6 +50,9 @@ def classify(component, what, case):
             pass
         if touch and "heap-use-after-free" in err and any("|d=" in t and "s" in t.split("|d=")[1].split("|")[0] for t in pred):
             return "F24"
+        # the snapshot walks the compiled tree of every implemented module and reads lysc_node.module->name
+        if "heap-use-after-free" in err and "collect_foreign" in err and any(cc.stale_compiled(t) for t in pred):
+            return "F380"
         return None
     if not case.get("model_agrees"):
         return None
